@@ -38,6 +38,9 @@ ASSUMPTIONS = [
     "alpha without post_training_scale (read from the public attributes of the "
     "live quantizer objects); predictions and the second export are compared "
     "bit-exactly",
+    "after a freeze every frozen quantizer is exercised in its layer: quantizing "
+    "3*w+0.37 must leave q.scale == post_training_scale and give outputs on that "
+    "scale's grid (exact)",
     "freeze steps run only on models clone_model_and_freeze_auto_po2_scale "
     "documents as supported: a chain whose auto_po2 quantizers sit on "
     "QConv2D / QDepthwiseConv2D / QDense kernels or a QBatchNormalization "
@@ -61,7 +64,7 @@ REQUIRED_LABELS = {
               "L:QSimpleRNN", "L:QLSTM", "L:QGRU", "L:QScaleShift",
               "L:QSeparableConv1D", "folded_layer", "bn_inverse_quantizer",
               "frozen_export", "canonical", "hyp", "pool_entry_no_quantizer",
-              "binary_use_01"],
+              "binary_use_01", "frozen_behaviour_checked"],
     "thorough": ["export", "export2", "predict", "freeze", "di_model", "dd_model",
                  "rel:po2", "rel:relu_po2", "rel:auto_po2",
                  "rel:auto_po2_scale_ne_1", "rel:plain", "bn_fused",
@@ -787,6 +790,37 @@ def do_freeze(model, x, state, quantize, labels):
                           "weight %d of %s: %r expected %r" % (
                               i, layer.name, _f64(a).reshape(-1)[:3], _f64(b).reshape(-1)[:3])))
             break
+  # every frozen quantizer must behave frozen inside the layer it lives in:
+  # quantizing a perturbed tensor leaves q.scale at the post-training scale and
+  # puts the result on that scale's grid (public behaviour of the live object)
+  for layer in new_model.layers[1:]:
+    cls = layer.__class__.__name__
+    cands = []
+    if cls in FREEZE_KERNEL_SLOT:
+      cands.append((FREEZE_KERNEL_SLOT[cls],
+                    getattr(layer, FREEZE_KERNEL_SLOT[cls] + "_internal"),
+                    layer.get_weights()[0]))
+    elif cls == "QBatchNormalization" and layer.inverse_quantizer_internal is not None:
+      cands.append(("inverse_quantizer", layer.inverse_quantizer_internal,
+                    np.asarray(layer.get_weights()[-1], dtype=np.float32)))
+    for slot, q, w in cands:
+      pts = getattr(q, "post_training_scale", None)
+      if pts is None or getattr(q, "alpha", None) != "auto_po2":
+        continue
+      labels.add("frozen_behaviour_checked")
+      wp = (np.asarray(w, dtype=np.float32) * 3.0 + 0.37).astype(np.float32)
+      y = _f64(apply_q(q, wp))
+      sc = _f64(q.scale)
+      ub = q.bits - int(bool(q.keep_negative))
+      unit = _f64(pts) * (2.0 ** float(q.integer)) / (2.0 ** ub)
+      with np.errstate(all="ignore"):
+        z = y / np.broadcast_arrays(unit, y)[0]
+      if not _eq(sc, pts) or not np.all(z == np.round(z)):
+        fails.append(("freeze", dict(lsig(layer), relation="frozen_in_layer", slot=slot),
+                      "after quantizing perturbed weights q.scale=%r, "
+                      "post_training_scale=%r, off-grid outputs=%d" % (
+                          sc.reshape(-1)[:4], _f64(pts).reshape(-1)[:4],
+                          int(np.sum(z != np.round(z))))))
   if any(is_dd(q) and qname(q) == "quantized_bits" and getattr(q, "alpha", None) == "auto_po2"
          for _, _, q in model_weight_quantizers(new_model)):
     fails.append(("freeze", {"relation": "no_adaptive_auto_po2_left"},
@@ -907,6 +941,7 @@ def run(ctx):
     if d["family"] == "chain":
       canon.append({"model": d, "steps": ["export", "freeze", "export", "export"]})
       canon.append({"model": d, "steps": ["freeze_q", "predict", "export", "predict"]})
+      canon.append({"model": d, "steps": ["freeze", "export", "predict", "export"]})
     else:
       canon.append({"model": d, "steps": ["export", "predict", "export"]})
   for case in ctx.shard(canon):
